@@ -17,6 +17,8 @@
  *   role <input|dest|dotregex|dotdfa> <path|->
  *   rand <u64>              seed of the byte stream served by getrandom (0 = zeros)
  *   time <sec>              epoch served by clock_gettime/gettimeofday/time
+ *   timestep <ns>           how far the simulated clock advances per clock call (default 1 ns): large values are
+ *                           clock jumps / a slow or suspended process, as seen by any deadline logic in the program
  *   pid <n>                 value served by getpid
  *   host <name>             value served by gethostname / uname.nodename
  *   heappad <bytes>         leaked malloc before main (moves later heap addresses)
@@ -67,7 +69,7 @@ static long counts[R_NROLES][C_NCLS];
 static long seq = 0;
 static uint64_t rand_seed = 0, rand_state = 0;
 static long long plan_time = 0; static int have_time = 0;
-static long time_ticks = 0;
+static long long time_ticks = 0; static long long time_step = 1;
 static long plan_pid = 0; static int have_pid = 0;
 static char plan_host[65]; static int have_host = 0;
 static char logpath[512];
@@ -193,6 +195,7 @@ __attribute__((constructor)) static void procsim_init(void) {
                 }
             } else if (sscanf(line, "rand %63s", a) == 1) { rand_seed = strtoull(a, NULL, 0); rand_state = rand_seed; }
             else if (sscanf(line, "time %63s", a) == 1) { plan_time = strtoll(a, NULL, 0); have_time = 1; }
+            else if (sscanf(line, "timestep %63s", a) == 1) { time_step = strtoll(a, NULL, 0); if (time_step < 1) time_step = 1; }
             else if (sscanf(line, "pid %63s", a) == 1) { plan_pid = strtol(a, NULL, 0); have_pid = 1; }
             else if (sscanf(line, "host %63s", a) == 1) { snprintf(plan_host, sizeof plan_host, "%s", a); have_host = 1; }
             else if (sscanf(line, "heappad %63s", a) == 1) { heappad = strtoull(a, NULL, 0); }
@@ -427,7 +430,8 @@ int clock_gettime(clockid_t clk, struct timespec *ts) {
     static int (*real)(clockid_t, struct timespec *);
     if (!real) real = dlsym(RTLD_NEXT, "clock_gettime");
     if (!active || !have_time) return real(clk, ts);
-    ts->tv_sec = plan_time; ts->tv_nsec = (time_ticks++) % 1000000000L;
+    time_ticks += time_step;
+    ts->tv_sec = plan_time + time_ticks / 1000000000LL; ts->tv_nsec = time_ticks % 1000000000LL;
     logf_("%ld clock_gettime clk=%d\n", seq++, (int)clk);
     return 0;
 }
@@ -435,7 +439,8 @@ int gettimeofday(struct timeval *tv, void *tz) {
     static int (*real)(struct timeval *, void *);
     if (!real) real = dlsym(RTLD_NEXT, "gettimeofday");
     if (!active || !have_time) return real(tv, tz);
-    if (tv) { tv->tv_sec = plan_time; tv->tv_usec = (time_ticks++) % 1000000L; }
+    time_ticks += time_step;
+    if (tv) { tv->tv_sec = plan_time + time_ticks / 1000000000LL; tv->tv_usec = (time_ticks / 1000) % 1000000LL; }
     logf_("%ld gettimeofday\n", seq++);
     return 0;
 }
@@ -443,9 +448,11 @@ time_t time(time_t *t) {
     static time_t (*real)(time_t *);
     if (!real) real = dlsym(RTLD_NEXT, "time");
     if (!active || !have_time) return real(t);
-    if (t) *t = plan_time;
+    time_ticks += time_step;
+    time_t now = (time_t)(plan_time + time_ticks / 1000000000LL);
+    if (t) *t = now;
     logf_("%ld time\n", seq++);
-    return plan_time;
+    return now;
 }
 pid_t getpid(void) {
     static pid_t (*real)(void);
